@@ -429,7 +429,7 @@ pub fn run_c04(tier: &str) -> i32 {
             if *l == Layer::Core {
                 for (kj, other) in pool.iter().enumerate().skip(1).take(3) {
                     let _ = kj;
-                    let rf = crate::adapter::ReFooter { footer: fas[1].0.as_deref(), other: *p, other_key: &base_key.pk, other_text: &token };
+                    let rf = crate::adapter::ReFooter { footer: fas[1].0.as_deref(), other: *p, other_key: &base_key.pk, other_text: &token, other_footer: fas[1].0.as_deref() };
                     let o = crate::adapter::core_present_refooter(*p, &other.pk, &token, rf);
                     acc.executions += 1;
                     acc.impl_calls += 1;
@@ -894,7 +894,7 @@ pub fn run_c07(tier: &str) -> i32 {
                     if x.enabled() && li == 0 && ay.is_none() {
                         let kx_other = domains::key_pool(*x)[0].clone();
                         let junk_x = format!("{}AAAA", x.header());
-                        let rf = crate::adapter::ReFooter { footer: footers[fi].as_deref(), other: *x, other_key: &kx_other.pk, other_text: &junk_x };
+                        let rf = crate::adapter::ReFooter { footer: footers[fi].as_deref(), other: *x, other_key: &kx_other.pk, other_text: &junk_x, other_footer: None };
                         let control = crate::adapter::core_present_refooter(*y, &ky.pk, &ty, rf);
                         let relabelled = crate::adapter::core_present_refooter(*y, &ky.pk, &named_x, rf);
                         acc.executions += 2;
